@@ -445,6 +445,7 @@ class Unit:
         parts.append(self.nondet_decls())
         # records/globals are global to the translator: emit all that exist (cheap)
         body_parts = []
+        has_inlined_loops = False
         ens_lines = {}
         protos = []
         fn_texts = []
@@ -462,13 +463,18 @@ class Unit:
                     # replaced by its contract: declaration + contract only (the body is not part of this proof)
                     text = "%s\n%s;\n" % (tr.signature(f), "\n".join(ct))
                 else:
-                    text = tr.function_text(f, contract="\n".join(ct) + "\n", loopann=ann)
+                    text = tr.function_text(f, contract="\n".join(ct) + "\n", loopann=ann, ghost_entry=[self.subst_params(g, f) for g in s.extra.get("ghost_entry", ())])
                 ens_lines[n] = (lines, ct)
                 fn_texts.append((n, text))
             elif n in tr.opts.get("stub_bodies", ()):
                 pass   # defined by self.stubs
             else:
-                text = tr.function_text(f, static=False)
+                # not under (replaced) contract in this proof: body is analysed; its own loop contracts still apply
+                s2 = self.specs.get(n)
+                ann2 = self.loop_annotations(s2) if (s2 is not None and s2.loops) else None
+                if ann2:
+                    has_inlined_loops = True
+                text = tr.function_text(f, static=False, loopann=ann2)
                 fn_texts.append((n, text))
             protos.append(tr.signature(f) + ";")
         exc_defs = "".join("#define EXC_%s %d\n" % (cxx2c.sanitize(c), k) for c, k in getattr(tr, "exc_classes", {}).items())
@@ -529,7 +535,7 @@ class Unit:
                     raise ExtractionBreak("function %s: loop contract for loop %d but only %d loops" % (target, lid, f.loops))
             if f.loops and not spec.loops and not spec.extra.get("unwind"):
                 raise ExtractionBreak("function %s has %d loop(s) but no loop contract" % (target, f.loops))
-        has_loops = (not is_lemma) and (bool(spec.loops) or bool(spec.extra.get("apply_loops")))
+        has_loops = ((not is_lemma) and (bool(spec.loops) or bool(spec.extra.get("apply_loops")))) or has_inlined_loops
         return dict(unit=self.name, target=key, fname=target, cfile=cfile, harness=hname, enforce=None if is_lemma else target,
                     replaced=replaced, loops=has_loops, unwind=(None if is_lemma else spec.extra.get("unwind")), linemap=linemap, inputs=inputs, spec=spec, is_lemma=is_lemma,
                     hstart=hstart, functions=order, text=text, rec=(not is_lemma and spec.rec))
